@@ -87,7 +87,8 @@ Extension (round 8), BULK / INDIRECT REMOVAL FOLLOWED BY RE-USE.
     goes is not demanded (the unchanged tree removes the first); the returned pair must be a member in its
     stored spelling with its value, and exactly that member is gone afterwards.  Objects left behind by copies /
     reinit sources are ghosts as before: emptying one object must not change the other (both directions are
-    counted).  Sources: ``bulk_enum_cases`` (every start kind x 24 removal scripts x fixed re-use scripts) and
+    counted); they are re-observed at the moment the other object becomes empty and again at the end.
+    Sources: ``bulk_enum_cases`` (every start kind x 26 removal scripts x fixed re-use scripts) and
     flavour 'bulk' (``gen_bulk_history``).  Counters ``bulk:*`` / monitors ``M.emptied``, ``M.after-emptied``
     have floors, among them clear / popitem-to-empty followed by re-use and by re-assignment of a former name
     for EVERY start kind (the object emptied is the start object itself, not a copy of it).
@@ -146,10 +147,10 @@ RULE = ('Histories = start state (empty / dict / pair list / parsed from str, by
         '(5) BULK / INDIRECT REMOVAL FOLLOWED BY RE-USE: operations clear (d.clear()), popitem (d.popitem(), also on '
         'the empty mapping), reinit (other = d.copy() / type(d)(d) / Deb822Dict(d) / dict(d) / list(d.items()); '
         'd.clear(); observe; d.update(other)) and update(another Deb822Dict).  Enumerated: 11 start configurations '
-        '(every start kind; Deb822 and Deb822Dict) x 24 removal scripts (clear, clear twice, popitem to empty / past '
+        '(every start kind; Deb822 and Deb822Dict) x 26 removal scripts (clear, clear twice, popitem to empty / past '
         'empty, pop(k) / pop(k, default) of every key also through case variants, del of every key forward / in '
         'reverse through variants, re-order then clear / popitem, reinit by 5 routes, clear + update(dict / pairs / '
-        'Deb822Dict), clear / popitem-to-empty of a copy and of the original of a copy, dump->parse then clear) x 1 of 2 '
+        'Deb822Dict), clear / popitem-to-empty of a copy and of the original of a copy (by a rotating copy route and by d.copy()), dump->parse then clear) x 1 of 2 '
         '(quick, alternating) / 12 (thorough) name sets (ASCII and non-ASCII), each followed by one of two fixed re-use scripts '
         '(membership, lookup, re-orders, pop, del, sort, copy, dump->parse on the emptied mapping; re-assignment of '
         'former names in the same and in another spelling and of fresh names; re-orders through variants; sort; '
@@ -338,7 +339,66 @@ UNI_OTHER_FLOOR = {
 BULK_HISTORIES = {'quick': 1000, 'thorough': 60000}
 BULK_REUSE_OPS = {'quick': 9, 'thorough': 12}
 BULK_ENUM_ROUNDS = {'quick': 2, 'thorough': 12}
-BULK_FLOORS = {'quick': {}, 'thorough': {}}          # filled in below (BULK_FLOOR_TABLE)
+# Floors (about 50% of the minimum measured on the unchanged tree, quick: VERIF_SEED 0-5).  Per START KIND (empty, dict,
+# pairs, parsed-str, parsed-bytes, parsed-lines, iter, lazy - the emptied object is the start object itself, not a copy
+# of it): removal that emptied it -> (operations addressing a former name afterwards, re-assignments of a former name).
+# The enumerated cases alone give every start kind >= 48 / 14 (clear) and >= 45 / 10 (popitem) in every seed.
+BULK_START_KINDS = ('empty', 'dict', 'pairs', 'parsed-str', 'parsed-bytes', 'parsed-lines', 'iter', 'lazy')
+BULK_ORIGIN_FLOOR = {
+    'quick': {'clear': (82, 37), 'popitem': (37, 10), 'pop': (44, 12), 'del': (120, 26)},
+    'thorough': {'clear': (4200, 2300), 'popitem': (2200, 1000), 'pop': (3500, 1100), 'del': (11000, 2700)},
+}
+# per operation kind: run on an object that has been emptied by a removal (after-emptied) / while it is empty (on-emptied)
+BULK_OP_FLOOR = {
+    'quick': {'after-emptied': {'after': 1400, 'before': 1600, 'clear': 83, 'copy': 880, 'cycle': 530, 'del': 1400,
+                                'first': 1200, 'get': 430, 'in': 370, 'last': 1200, 'pop': 460, 'popitem': 140,
+                                'reinit': 52, 'set': 2900, 'setdefault': 240, 'sort': 690, 'update': 330},
+              'on-emptied': {'after': 770, 'before': 890, 'clear': 38, 'copy': 420, 'cycle': 270, 'del': 860,
+                             'first': 720, 'get': 240, 'in': 210, 'last': 610, 'pop': 270, 'popitem': 91,
+                             'reinit': 15, 'set': 1300, 'setdefault': 110, 'sort': 330, 'update': 180}},
+    'thorough': {'after-emptied': {'after': 110000, 'before': 110000, 'clear': 5400, 'copy': 51000, 'cycle': 32000,
+                                   'del': 100000, 'first': 94000, 'get': 28000, 'in': 22000, 'last': 95000,
+                                   'pop': 30000, 'popitem': 13000, 'reinit': 4400, 'set': 200000,
+                                   'setdefault': 21000, 'sort': 40000, 'update': 24000},
+                 'on-emptied': {'after': 58000, 'before': 60000, 'clear': 2300, 'copy': 23000, 'cycle': 15000,
+                                'del': 58000, 'first': 48000, 'get': 12000, 'in': 9800, 'last': 48000, 'pop': 14000,
+                                'popitem': 6400, 'reinit': 1300, 'set': 92000, 'setdefault': 9000, 'sort': 19000,
+                                'update': 12000}},
+}
+# a former name addressed again: per operation role x (same spelling as before the removal | another spelling)
+BULK_REUSE_ROLES = ('set', 'del', 'get', 'in', 'first', 'last', 'pop', 'setdefault', 'update', 'before-item',
+                    'before-ref', 'after-item', 'after-ref')
+BULK_REUSE_ROLE_FLOOR = {'quick': 65, 'thorough': 5200}
+BULK_REINIT_FLOOR = {'quick': 20, 'thorough': 1800}             # per reinit route
+BULK_CLEAR_UPDATE_FLOOR = {'quick': 22, 'thorough': 1400}       # per kind of update() argument right after clear()
+BULK_OTHER_FLOOR = {
+    'quick': {'bulk:emptied-by:clear': 450, 'bulk:emptied-by:popitem': 160, 'bulk:emptied-by:pop': 360,
+              'bulk:emptied-by:del': 2000, 'bulk:emptied-by:reinit': 100,
+              'bulk:reassign-former:same': 870, 'bulk:reassign-former:variant': 1100,
+              'bulk:after-emptied:assign-fresh': 960,
+              'bulk:ghost:copy-observed-after-other-object-emptied': 280,
+              'bulk:ghost:original-observed-after-other-object-emptied': 250,
+              'bulk:ghost:reinit-source-observed-after-other-object-emptied': 23,
+              'bulk:ghost:reparse-source-observed-after-other-object-emptied': 350,
+              'bulk:ghost:copy-observed-right-after-other-object-emptied': 370,
+              'bulk:ghost:original-observed-right-after-other-object-emptied': 330,
+              'bulk:ghost:reinit-source-observed-right-after-other-object-emptied': 25,
+              'bulk:ghost:reparse-source-observed-right-after-other-object-emptied': 450,
+              'ok:clear': 500, 'ok:popitem': 600, 'ok:reinit': 130, 'fail:popitem-empty': 99},
+    'thorough': {'bulk:emptied-by:clear': 19000, 'bulk:emptied-by:popitem': 11000, 'bulk:emptied-by:pop': 25000,
+                 'bulk:emptied-by:del': 110000, 'bulk:emptied-by:reinit': 7800,
+                 'bulk:reassign-former:same': 57000, 'bulk:reassign-former:variant': 80000,
+                 'bulk:after-emptied:assign-fresh': 63000,
+                 'bulk:ghost:copy-observed-after-other-object-emptied': 17000,
+                 'bulk:ghost:original-observed-after-other-object-emptied': 17000,
+                 'bulk:ghost:reinit-source-observed-after-other-object-emptied': 1300,
+                 'bulk:ghost:reparse-source-observed-after-other-object-emptied': 25000,
+                 'ok:clear': 21000, 'ok:popitem': 30000, 'ok:reinit': 9300, 'fail:popitem-empty': 6600},
+}
+BULK_MONITOR_FLOOR = {
+    'quick': {'M.emptied': 8600, 'M.after-emptied': 16000, 'M.ghost.after-emptied': 2200},
+    'thorough': {'M.emptied': 530000, 'M.after-emptied': 1000000, 'M.ghost.after-emptied': 62000},
+}
 # the tolerated-unspecified probes are a fixed list run by every shard: their floors (pairs x 2 classes = one
 # shard's worth, built below) only say "they ran", never anything about their outcome
 
@@ -520,6 +580,22 @@ for _tier in FLOORS:
     for _k, _v in UNI_START_FLOOR[_tier].items():
         FLOORS[_tier]['counters']['uni:start:%s' % _k] = _v
     FLOORS[_tier]['counters'].update(UNI_OTHER_FLOOR[_tier])
+    for _e, (_reuse, _reassign) in BULK_ORIGIN_FLOOR[_tier].items():
+        for _k in BULK_START_KINDS:
+            FLOORS[_tier]['counters']['bulk:%s:reuse-former:origin-%s' % (_e, _k)] = _reuse
+            FLOORS[_tier]['counters']['bulk:%s:reassign-former:origin-%s' % (_e, _k)] = _reassign
+    for _w, _table in BULK_OP_FLOOR[_tier].items():
+        for _k, _v in _table.items():
+            FLOORS[_tier]['counters']['bulk:%s:op:%s' % (_w, _k)] = _v
+    for _k in BULK_REUSE_ROLES:
+        for _h in ('same', 'variant'):
+            FLOORS[_tier]['counters']['bulk:reuse-former:%s:%s' % (_k, _h)] = BULK_REUSE_ROLE_FLOOR[_tier]
+    for _h in ('copy', 'ctor', 'Deb822Dict', 'dict', 'items'):
+        FLOORS[_tier]['counters']['bulk:reinit:%s' % _h] = BULK_REINIT_FLOOR[_tier]
+    for _h in ('dict', 'pairs', 'Deb822Dict'):
+        FLOORS[_tier]['counters']['bulk:clear-then-update:%s' % _h] = BULK_CLEAR_UPDATE_FLOOR[_tier]
+    FLOORS[_tier]['counters'].update(BULK_OTHER_FLOOR[_tier])
+    FLOORS[_tier]['monitors'].update(BULK_MONITOR_FLOOR[_tier])
     for _c, _pairs in TOLERATED.items():
         FLOORS[_tier]['counters']['tolerated:%s' % _c] = len(_pairs) * 2
     FLOORS[_tier]['counters']['tolerated:probes'] = sum(len(_p) for _p in TOLERATED.values()) * 2
@@ -1069,7 +1145,7 @@ def gen_bulk_history(r, tier):
     def removal():
         kind = _weighted(r, BULK_REMOVALS)
         if kind == 'copy-then-empty':
-            emit(['copy', r.choice(COPY_OBJECTS), r.choice(['new', 'old'])])
+            emit(['copy', 'copy' if r.random() < 0.3 else r.choice(COPY_OBJECTS), r.choice(['new', 'old'])])
             kind = r.choice(['clear', 'clear', 'popitem-to-empty', 'del-all'])
         keys = m.keys()
         if kind == 'partial-then-clear':
@@ -1128,7 +1204,7 @@ BULK_ENUM_REMOVALS = (('clear', 'clear-twice', 'popitem-to-empty', 'popitem-past
                       + tuple('reinit-self:%s' % h for h in REINIT_HOWS)
                       + tuple('clear-update:%s' % h for h in BULK_UPDATE_HOWS)
                       + ('copy-new-clear', 'copy-old-clear', 'copy-new-popitem', 'copy-old-popitem', 'cycle-clear',
-                         'del-all-but-one-then-popitem'))
+                         'del-all-but-one-then-popitem', 'dcopy-new-clear', 'dcopy-old-clear'))
 
 
 def bulk_enum_name_sets(tier):
@@ -1183,6 +1259,8 @@ def _bulk_enum_ops(removal, script, K, V, fresh, fresh2, rot, from_empty):
         ops += [['clear'], ['update', [[v1, 'u0'], [fresh[0], 'u1'], [k0, 'u2']], removal.split(':')[1]]]
     elif removal in ('copy-new-clear', 'copy-old-clear'):
         ops += [['copy', how, removal.split('-')[1]], ['clear']]
+    elif removal in ('dcopy-new-clear', 'dcopy-old-clear'):     # d.copy() itself
+        ops += [['copy', 'copy', removal.split('-')[1]], ['clear']]
     elif removal in ('copy-new-popitem', 'copy-old-popitem'):
         ops += [['copy', how, removal.split('-')[1]]] + [['popitem']] * 3
     elif removal == 'cycle-clear':
@@ -1933,6 +2011,18 @@ def execute(rec, case):
                     last_emptied = step
                     rec.count('bulk:emptied-by:%s' % kind)
                     rec.count('bulk:emptied:origin-%s' % origin)
+                    # emptying this object must not touch the objects left behind (its copies / the original it was
+                    # copied from): looked at right now, and again at the end of the history
+                    for g, gm, gstep, gdump, grole in ghosts:
+                        if not len(gm):
+                            continue
+                        rec.mon('M.ghost.after-emptied')
+                        rec.count('bulk:ghost:%s-observed-right-after-other-object-emptied' % grole)
+                        bad = observe(g, gm, universe, gdump, rec)
+                        if bad:
+                            return (('%s/other-object-changed-%s' % (label, bad[0]),
+                                     'object left behind at op #%d %r changed when the other object was emptied by op '
+                                     '#%d %r: %s' % (gstep, ops[gstep], step, op, bad[1]), step + 1), info)
             elif kind == 'reinit' and keys_before:
                 last_emptied = step             # emptied and filled again within one operation
                 rec.count('bulk:emptied-by:reinit')
